@@ -66,6 +66,10 @@ def _cases(tier):
     for v in A.VALUE_NAMES:
         for v2 in ("null", A.ABSENT, None):
             yield {"in": ["V", v, v2], "opts": "conv"}
+    # values whose model ends up without any emitted field (every field always null: pydantic drops them) or without fields at all
+    for v in ("O(k:null)", "eobj", "L(O(k:int))", "O(k:eobj)", "O(k:elist)", "L(null)", "null"):
+        for v2 in ("null", A.ABSENT, None, "O(k:null)"):
+            yield {"in": ["V", v, v2], "opts": "std"}
     # the key as a plain required field FOLLOWED by an optional pseudo-typed field (whose declaration calls imported helpers such as
     # attr.converters.optional / dataclasses.field after the key's name has been bound in the class body)
     seen4 = set()
